@@ -17,6 +17,7 @@ import (
 	"fmt"
 	"path/filepath"
 	"strings"
+	"testing/fstest"
 	"time"
 
 	"github.com/ichiban/prolog"
@@ -75,6 +76,55 @@ func c13Queries(r *rng) *G {
 	return g
 }
 
+// c13Loads: cancellation in the middle of loading a file (directives and initialization goals
+// that loop or run long), then the same interpreter must load the file again and answer.
+func c13Loads(sum *runSummary, r *rng, id int, tier string) int {
+	files := []string{
+		"greeting(hello).\n:- between(1, 200, X), X > 199.\nanswer(42).\n",
+		"greeting(hello).\n:- initialization((between(1, 300, X), X > 299)).\nanswer(42).\n",
+		"greeting(hello).\nanswer(42).\n:- nat(X), X > 150.\n",
+	}
+	for fi, text := range files {
+		for _, n := range []int{0, 3, 10, 40, 120, 100000} {
+			p := prolog.New(nil, nil)
+			_ = p.Exec(c13Library)
+			p.FS = fstest.MapFS{"prog.pl": &fstest.MapFile{Data: []byte(text)}}
+			desc := map[string]interface{}{"text": fmt.Sprintf("consult(prog) of file %d cancelled from poll %d on, then consult(prog) again and query greeting/1, answer/1", fi, n), "file": text, "cancel_at_poll": n}
+			sum.Cases[fmt.Sprint(id)] = desc
+			ctx := newStepCtx(context.Background(), n)
+			done := make(chan error, 1)
+			go func() { done <- p.QuerySolutionContext(ctx, "consult(prog).").Err() }()
+			var err error
+			select {
+			case err = <-done:
+			case <-time.After(3 * time.Second):
+				sum.Failures = append(sum.Failures, failure{ID: id, Class: "cancel:load-does-not-return", Input: desc, Observed: "no return within 3 s", Expected: "the context's error"})
+				id++
+				continue
+			}
+			sum.Evaluations++
+			cancelled := err != nil && strings.Contains(err.Error(), "context canceled")
+			if cancelled {
+				sum.count("load:cancelled")
+			} else if err == nil {
+				sum.count("load:completed")
+			} else {
+				sum.count("load:error")
+			}
+			// afterwards: loading again must define the predicates
+			err2 := p.QuerySolution("consult(prog).").Err()
+			out := runQuery(p, 3, []string{"X", "Y"}, "greeting(X), answer(Y) .")
+			ok := err2 == nil && len(out.Answers) == 1 && out.Answers[0]["X"].S == "hello" && out.Answers[0]["Y"].I == 42
+			if !ok {
+				sum.Failures = append(sum.Failures, failure{ID: id, Class: "cancel:reload-after-cancelled-load-fails", Input: desc,
+					Observed: fmt.Sprint("reload: ", err2, " query: ", out.Answers, out.Err, out.GoErr), Expected: "X = hello, Y = 42"})
+			}
+			id++
+		}
+	}
+	return id
+}
+
 const c13Header = "From Coq Require Import ZArith List String.\nFrom PV Require Import Model.Term Model.Machine Model.Boot Model.MachineCheck.\nImport ListNotations.\nOpen Scope Z_scope.\nOpen Scope string_scope.\n"
 
 func runC13(outDir string, seed int64, tier string) {
@@ -87,8 +137,10 @@ func runC13(outDir string, seed int64, tier string) {
 	}
 	var cases []string
 	id := 0
+	stuck := 0
 	seen := map[string]bool{}
-	for pi := 0; pi < nProg; pi++ {
+	id = c13Loads(sum, r.split(), id, tier)
+	for pi := 0; pi < nProg && stuck < 3; pi++ {
 		q := renumber(c13Queries(r.split()))
 		prog := &program{query: q}
 		var instants []int
@@ -104,8 +156,32 @@ func runC13(outDir string, seed int64, tier string) {
 			}
 			ctx := newStepCtx(context.Background(), n)
 			t0 := time.Now()
-			out := runQueryCtx(ctx, p, answerLimit, prog.queryVars(), q.text()+" .")
+			var out outcome
+			done := make(chan struct{})
+			go func() {
+				out = runQueryCtx(ctx, p, answerLimit, prog.queryVars(), q.text()+" .")
+				close(done)
+			}()
+			returned := true
+			select {
+			case <-done:
+			case <-time.After(3 * time.Second):
+				returned = false
+			}
 			wall := time.Since(t0)
+			if !returned {
+				desc := map[string]interface{}{"program": c13Library, "query": q.text() + " .", "vars": prog.queryVars(), "text": fmt.Sprintf("%s   [context cancelled from poll %d on]", q.text(), n), "cancel_at_poll": n}
+				sum.Cases[fmt.Sprint(id)] = desc
+				sum.Failures = append(sum.Failures, failure{ID: id, Class: "cancel:call-does-not-return", Input: desc,
+					Observed: "the call had not returned 3 s after its context was cancelled", Expected: "the context's error, promptly"})
+				sum.Evaluations++
+				id++
+				stuck++
+				if stuck >= 3 {
+					break
+				}
+				continue
+			}
 			desc := map[string]interface{}{"program": c13Library, "query": q.text() + " .", "vars": prog.queryVars(), "text": fmt.Sprintf("%s   [context cancelled from poll %d on]", q.text(), n), "cancel_at_poll": n}
 			sum.Cases[fmt.Sprint(id)] = desc
 			cancelled := strings.Contains(out.GoErr, "context canceled")
